@@ -378,6 +378,28 @@ fn cases_for(a: &Alph, tier: Tier, seed: u64, full: bool) -> Vec<Case> {
     push(msm_case(cv, vec![sc("15", BigUint::from(15u32))], vec![a.p("P0")], vec![(SRef::In(0), BRef::In(0))], Some(vec![4])));
     push(msm_case(cv, vec![a.s("2^128")], vec![a.p("P0")], vec![(SRef::In(0), BRef::In(0))], Some(vec![129])));
     push(msm_case(cv, vec![a.s("s0"), sc("3", BigUint::from(3u32))], vec![a.p("P0"), a.p("Id")], in2(), Some(vec![r.bits() as usize, 2])));
+    // two msm calls in one circuit (foreign chips: every call loads its own dynamic lookup tables)
+    if foreign {
+        let mut ins: Vec<V> = vec![V::Sc(a.s("s0")), V::Sc(a.s("s1"))];
+        ins.extend([V::Pt(a.p("P0")), V::Pt(a.p("P1"))]);
+        push(Case { cv, op: Op::MsmTwice { ns: 2, nb: 2, terms: in2() }, ins, lenient: false });
+    }
+    // bounded scalars on a repeated base variable: the chip merges them into one scalar whose
+    // bound must grow with the sum (sums that overflow the larger bound, bounds that are multiples
+    // of the window size)
+    let same2 = || vec![(SRef::In(0), BRef::In(0)), (SRef::In(1), BRef::In(0))];
+    let small = |v: u32| sc(&v.to_string(), BigUint::from(v));
+    push(msm_case(cv, vec![small(200), small(100)], vec![a.p("P0")], same2(), Some(vec![8, 8])));
+    push(msm_case(cv, vec![small(255), small(255)], vec![a.p("P0")], same2(), Some(vec![8, 8])));
+    push(msm_case(cv, vec![small(4095), small(1)], vec![a.p("P0")], same2(), Some(vec![12, 4])));
+    push(msm_case(cv, vec![small(9), small(9)], vec![a.p("G")], same2(), Some(vec![4, 4])));
+    push(msm_case(
+        cv,
+        vec![small(15), small(15), small(15)],
+        vec![a.p("P0")],
+        vec![(SRef::In(0), BRef::In(0)), (SRef::In(1), BRef::In(0)), (SRef::In(2), BRef::In(0))],
+        Some(vec![4, 4, 4]),
+    ));
     // larger sizes (Jubjub; thorough)
     if tier.is_thorough() && !foreign {
         let mut rng = vcore::rng_for(seed, "c06-msm-big");
@@ -1006,6 +1028,64 @@ fn main() {
         vgad::explore_pairs(c, kof(c).unwrap(), pairs, &f2, &mut out);
         out
     });
+
+    // ---- phase 4a: dynamic lookup tables of the foreign chip. Window selections and
+    // k-out-of-n selections are answered through the "multi_select lookup" argument, whose table
+    // is made of advice rows (index, x limbs, y limbs) with a fixed tag; the chip relies on
+    // (tag, index) naming one point. On the synthesised honest circuit: no two table rows with a
+    // non-zero tag share (tag, index) and differ elsewhere — otherwise a selection can be
+    // answered with either row, whatever the rest of the witness is.
+    {
+        let mut dcases: Vec<(String, Case)> = vec![];
+        let mut per_op: HashMap<String, usize> = HashMap::new();
+        for (key, c) in &cases {
+            if c.cv == Cv::Jub || !matches!(c.op, Op::Msm { .. } | Op::MsmTwice { .. } | Op::MulByConst(_) | Op::AssertInSubgroup) {
+                continue;
+            }
+            let cnt = per_op.entry(format!("{:?}/{}", c.cv, c.op.name())).or_default();
+            *cnt += 1;
+            if !matches!(c.op, Op::MsmTwice { .. }) && *cnt > tier.pick(2usize, usize::MAX) {
+                continue;
+            }
+            dcases.push((key.clone(), c.clone()));
+        }
+        cx.run_cases("dynamic-tables", &dcases, |c| {
+            let mut out = CaseOut::batch();
+            let run = vgad::run_once(c, kof(c).unwrap(), vec![], true);
+            let Some(prover) = &run.prover else {
+                out.eval("dyn-table:no-circuit", false);
+                return out;
+            };
+            let Some(tuples) = vgad::lookup_table_tuples(prover, "multi_select lookup") else {
+                out.eval("dyn-table:no-such-lookup", false);
+                return out;
+            };
+            let width = tuples.first().map(|t| t.1.len()).unwrap_or(0);
+            // coordinates: [index, x limbs.., y limbs.., tag]; rows with tag 0 are not table rows
+            let tagged: Vec<(usize, Vec<F>)> = tuples.into_iter().filter(|(_, t)| width >= 2 && t[width - 1] != F::from(0)).collect();
+            out.counter("dynamic_table_rows", tagged.len() as u64);
+            let tags: std::collections::HashSet<String> = tagged.iter().map(|(_, t)| vgad::val::hex(&t[width - 1])).collect();
+            out.counter("dynamic_tables", tags.len() as u64);
+            if tagged.is_empty() {
+                out.eval("dyn-table:empty", false);
+                return out;
+            }
+            let amb = vgad::ambiguous_table_keys(&tagged, &[0, width - 1], 4);
+            out.eval(if amb.is_empty() { "dyn-table:keys-unique" } else { "dyn-table:ambiguous" }, true);
+            if let Some((r0, r1)) = amb.first() {
+                out.viol(Viol::new(
+                    format!("{}:{}:dynamic-table-key-not-unique", c.cv.name(), c.op.name()),
+                    format!(
+                        "rows {r0} and {r1} of the multi-select table carry the same (tag, index) but different points ({} such pair(s)): a window selection can be answered with either",
+                        amb.len()
+                    ),
+                    json!({"case": c.key(), "rows": [r0, r1], "tables": tags.len()}),
+                ));
+            }
+            out
+        });
+        cx.require(cx.class_count("dynamic-tables:dyn-table:keys-unique") + cx.class_count("dynamic-tables:dyn-table:ambiguous") > 0 || cx.remaining_s() <= 0.0, "the dynamic-table invariant was evaluated on at least one circuit");
+    }
 
     // ---- phase 4b: ZKIR compression / decompression under faults
     let zfaults = if tier.is_thorough() { pick(&["+1", "-1", "zero", "1-v", "neg", "random"]) } else { pick(&["+1", "1-v", "neg", "random"]) };
